@@ -629,8 +629,9 @@ def rule_completing_element_is_flagged(ctx):
 
 
 def rule_ended_stream_is_silent(ctx):
-    """C08.l  After the responder's COMPLETE or ERROR has been received, the requester of a request-stream writes
-    nothing further on that stream - whatever the application does with the subscription it still holds.  Calling
+    """C08.l  After the responder's COMPLETE or ERROR has been received, the requester of a request-stream - and after
+    both directions have completed either side of a channel - writes nothing further on that stream, whatever the
+    application does with the subscription it still holds.  Calling
     request(n) in every on_next and cancel() when done are ordinary reactive-streams usage (on a terminated
     subscription they are no-ops), and the last element is delivered *inside* frame_received, before the stream is
     released.  Typestate by re-entry: from the state each terminal frame entry leaves, request() and cancel() queue no
@@ -640,10 +641,18 @@ def rule_ended_stream_is_silent(ctx):
     rep = ctx.report
     m = model(ctx)
     n = 0
+    from .reactions import _peer_done_flag
     for h in m.handlers:
-        if m.role(h) != ('stream', 'requester'):
+        inter, role = m.role(h)
+        if (inter, role) != ('stream', 'requester') and inter != 'channel':
             continue
         pre0 = init_bools(ctx, m, h)
+        if inter == 'channel':
+            # a channel has ended when both directions have: start from "this side has completed its own sending"
+            peer = _peer_done_flag(m, h, pre0)
+            if peer is None:
+                raise AnalysisError('C08.l: %s has no flag for the peer\'s completion' % h.name)
+            pre0 = {k: (v if k == peer else (True if v is False else v)) for k, v in pre0.items()}
         entries = m.entries(h)
         api = [e for e in entries if e.kind == 'method' and e.func.node.name in ('request', 'cancel')]
         for en in entries:
@@ -683,7 +692,7 @@ def rule_ended_stream_is_silent(ctx):
                     continue
                 rep.ok('C08.l', c, en.func, 'state %s is set before the subscriber is told; request()/cancel() '
                                             'from it queue nothing' % ', '.join(changed))
-    rep.require('C08.l', 'terminal frame paths of the stream requester', n, 3)
+    rep.require('C08.l', 'terminal frame paths of the stream requester and the channel handlers', n, 9)
 
 
 
